@@ -86,3 +86,25 @@ Theorem C09_render_heading_escaped :
     = Ok ([60; 104; 49; 62] ++ escape_html (text_of segs) ++ [60; 47; 104; 49; 62; 10], env).
 Proof. exact render_heading_esc. Qed.
 Print Assumptions C09_render_heading_escaped.
+
+(* every nesting of block quotes and list items (bullets - * + with 1-4 blanks, any depth below maxNesting):
+   parse(prefix(cs) esc(t) LF) is the paragraph wrapped in those containers, and the children of its inline token
+   are ONE text token whose content is exactly t - the escaped text is literal in every such context *)
+From MD Require Import Model.Block Model.Render Lemmas.ParaLine Lemmas.NestLine.
+Theorem C09_nested_containers_escaped :
+  forall cfg rf cf lt (segs : list seg), wf segs -> line_ok (src_of segs) ->
+    mem_z 13 (src_of segs) = false -> mem_z 0 (src_of segs) = false ->
+  forall RA RB RC RD, c_rules (p_block cfg) = RA ++ nm_blockquote :: RB ++ nm_list :: RC ++ nm_paragraph :: RD ->
+    Forall (fun n => n = nm_table \/ n = nm_code \/ n = nm_fence) RA ->
+    Forall (fun n => n = nm_table \/ n = nm_code \/ n = nm_fence \/ n = nm_hr) RB ->
+    Forall (fun n => str_eqb n nm_paragraph = false) RC ->
+    p_core cfg = [n_normalize; n_block; n_inline; n_text_join] ->
+  forall ipre ipost, ic_rules (p_inline cfg) = ipre ++ n_escape :: ipost ->
+    Forall (fun n => n = n_text \/ n = n_linkify \/ n = n_newline) ipre -> In n_text ipre ->
+    ic_linkify (p_inline cfg) = false -> 0 < ic_maxNesting (p_inline cfg) ->
+  forall cs, Forall okc cs -> weight cs < c_maxNesting (p_block cfg) ->
+  forall env, exists p,
+    parse cfg rf cf lt (prefix cs ++ src_of segs ++ [10]) env = Ok (wrapc (src_of segs) cs 0 false [p], env)
+    /\ ttype p = s_text /\ tcontent p = text_of segs.
+Proof. exact parse_nested_escaped. Qed.
+Print Assumptions C09_nested_containers_escaped.
